@@ -27,7 +27,8 @@ TECHNIQUE = "property-based testing on a virtual-time simulator: generated conte
 RULE = (
     "Generated: (tree) context trees of depth <= 3, fan-out <= 4, children sequential or concurrent asyncio tasks, every context issues "
     ">= 1 wire request in its subtree (1-3 per leaf with drawn delay before the first send, service time, gaps), 1-3 clients in one "
-    "loop; (composite) operation type 'composite' with nested streams, 1-3 leaf operations per stream, max-connections in "
+    "loop, some sub-requests fail after having been on the wire (their parent handles the error); (composite) operation type 'composite' "
+    "with nested streams or a sequential list whose k-th operation fails with HTTP 503 under on-error=continue, 1-3 leaf operations per stream, max-connections in "
     "{unbounded,1,2}, run by the real AsyncExecutor for 1-3 clients. Non-trivial = some context has >= 2 concurrent children and the "
     "child that ends first is not the one that started first. Distinct = distinct canonical JSON."
 )
@@ -37,7 +38,7 @@ ASSUMPTIONS = [
     "instants are dyadic rationals; exact comparison with 1e-9 tolerance",
 ]
 BUDGET = {"quick": 2500, "thorough": 20000}
-REQUIRED_CLASSES = {"concurrent-first-end-not-first-start": 100, "composite": 500, "multi-client": 500}
+REQUIRED_CLASSES = {"concurrent-first-end-not-first-start": 100, "composite": 500, "multi-client": 500, "failing-sub-request": 200}
 TOL = 1e-9
 
 DELAYS = [0, 0, 1 / 1024, 1 / 64, 1 / 8, 0.5]
@@ -53,14 +54,17 @@ def _wires(draw, lo=1, hi=3):
 
 @st.composite
 def _tree(draw, depth):
+    # "fails": the sub-request raises after it has been on the wire; its parent handles the error and carries on
+    fails = depth < 2 and draw(st.integers(0, 5)) == 0
     if depth == 0 or draw(st.integers(0, 3)) == 0:
-        return {"mode": "leaf", "wires": draw(_wires()), "post": draw(st.sampled_from(DELAYS)), "children": []}
+        return {"mode": "leaf", "wires": draw(_wires()), "post": draw(st.sampled_from(DELAYS)), "children": [], "fails": fails}
     n = draw(st.integers(1, 4))
     return {
         "mode": draw(st.sampled_from(["seq", "par", "par"])),
         "wires": draw(_wires(0, 2)),
         "post": draw(st.sampled_from(DELAYS)),
         "children": [draw(_tree(depth - 1)) for _ in range(n)],
+        "fails": fails,
     }
 
 
@@ -96,8 +100,14 @@ def _case(draw):
         return {"kind": "tree", "clients": [draw(_tree(2)) for _ in range(n_clients)], "perf_offset": draw(st.sampled_from([0.0, 500.5]))}
     counter = [0]
     streams = []
-    for _ in range(draw(st.integers(1, 3))):
-        streams.append({"stream": draw(_stream(1, counter))})
+    if draw(st.integers(0, 3)) == 0:
+        # a sequential composite whose k-th sub-request fails (HTTP 5xx after it has been on the wire); under on-error=continue the
+        # enclosing request is still recorded and must span everything that was sent
+        streams = [x for x in draw(_stream(0, counter)) if "operation-type" in x]
+        streams[draw(st.integers(0, len(streams) - 1))]["sim"]["fails"] = True
+    else:
+        for _ in range(draw(st.integers(1, 3))):
+            streams.append({"stream": draw(_stream(1, counter))})
     return {
         "kind": "composite",
         "n_clients": n_clients,
@@ -120,7 +130,13 @@ async def _run_node(es, node, path, out, wires_out):
                 await asyncio.sleep(gap)
             w = await es.wire(service, {"path": path})
             wires_out.append((path, w["pc_start"], w["pc_end"]))
-        kids = [(_run_node(es, ch, path + (i,), out, wires_out)) for i, ch in enumerate(node["children"])]
+        async def child(i, ch):
+            try:
+                await _run_node(es, ch, path + (i,), out, wires_out)
+            except _SubRequestFailed:
+                pass  # the parent handles a failed sub-request and carries on
+
+        kids = [child(i, ch) for i, ch in enumerate(node["children"])]
         if node["mode"] == "par":
             await asyncio.gather(*kids)
         else:
@@ -129,6 +145,12 @@ async def _run_node(es, node, path, out, wires_out):
         if node["post"]:
             await asyncio.sleep(node["post"])
         out[path] = (ctx.request_start, ctx.request_end)
+        if node.get("fails"):
+            raise _SubRequestFailed()
+
+
+class _SubRequestFailed(Exception):
+    pass
 
 
 def _run_tree_clients(trees, perf_offset):
@@ -144,7 +166,10 @@ def _run_tree_clients(trees, perf_offset):
             async def client(i, tree):
                 es = world.SimEs(client_id=i)
                 out, wires = {}, []
-                await _run_node(es, tree, (), out, wires)
+                try:
+                    await _run_node(es, tree, (), out, wires)
+                except _SubRequestFailed:
+                    pass
                 return out, wires
 
             async def main():
@@ -185,8 +210,14 @@ def _check_tree(case, obs):
         obs.cls("multi-client")
     if interesting:
         obs.cls("concurrent-first-end-not-first-start")
+    if any(_has_failing(t) for t in trees):
+        obs.cls("failing-sub-request")
     obs.cls("tree")
     obs.mark_nontrivial(interesting)
+
+
+def _has_failing(node):
+    return bool(node.get("fails")) or any(_has_failing(ch) for ch in node["children"])
 
 
 def _first_end_not_first_start(node, path, wires):
@@ -227,6 +258,8 @@ class _LeafRunner:
             await es.wire(service, {"op": params["name"]})
         if sim["post"]:
             await asyncio.sleep(sim["post"])
+        if sim.get("fails"):
+            raise world._api_error(503)  # pylint: disable=protected-access
         return {"weight": 1, "unit": "ops", "success": True}
 
 
@@ -271,7 +304,8 @@ def _run_composite(case, n_clients):
     op = track.Operation("comp", "composite", params=params, param_source="c18-composite-source")
     task = track.Task("comp-task", op, iterations=case["iterations"], clients=n_clients)
     t = track.Track("sim-track", challenges=[track.Challenge("c", default=True, schedule=[task])])
-    cfg = loadgen.base_config("abort")
+    failing = any(l["sim"].get("fails") for l in _leaf_ops(case["requests"], []))
+    cfg = loadgen.base_config("continue" if failing else "abort")
     allocs, contexts = [], {}
     for i in range(n_clients):
         allocs.append(driver.ClientAllocation(i, driver.TaskAllocation(task, i, i, n_clients)))
@@ -281,7 +315,7 @@ def _run_composite(case, n_clients):
         token = kernel.current_proc.set("worker")
         try:
             sampler = driver.Sampler(start_timestamp=clock.perf_counter())
-            adapter = driver.AsyncIoAdapter(cfg, t, allocs, sampler, cancel, complete, "abort", contexts, 0)
+            adapter = driver.AsyncIoAdapter(cfg, t, allocs, sampler, cancel, complete, "continue" if failing else "abort", contexts, 0)
             kernel.run_virtual(clock, adapter.run())
             samples = sampler.samples
         finally:
@@ -330,6 +364,12 @@ def _check_composite(case, obs):
                 "composite-service-time",
                 f"client {ci} iteration {k}: service_time {s.service_time}, sub-requests span {e_ref - s_ref} ({s_ref}..{e_ref})",
             )
+            failing = any(l["sim"].get("fails") for l in leafs)
+            if failing:
+                # the runner raised: no sub-request timings are reported, but the request itself is (success: False)
+                obs.check(s.request_meta_data.get("success") is False, "failed-composite-success-flag", f"client {ci}: meta {s.request_meta_data}")
+                obs.cls("failing-sub-request")
+                continue
             deps = {d.operation_name: d for d in _deps(s)}
             obs.check(sorted(deps) == sorted(l["name"] for l in leafs), "dependent-timing-set", f"client {ci}: timings for {sorted(deps)}")
             spans = {}
